@@ -1,0 +1,136 @@
+//go:build verif
+// +build verif
+
+package bfe_http2
+
+// Verification hooks for properties C33 (inbound flow control) and C37 (control-frame floods).
+// They start the REAL Server.ServeConn on a connection supplied by the out-of-tree harness
+// (/verif/harness/cmd/c33, c37) and read serve-loop state through the existing test hook channel
+// (serverConn.testHookCh), i.e. on the serve goroutine itself.  Add-only, build tag "verif".
+
+import (
+	"io"
+	"net"
+	"sort"
+	"sync"
+)
+
+import (
+	http "github.com/bfenetworks/bfe/bfe_http"
+)
+
+type VerifC33Conn struct {
+	sc   *serverConn
+	Done chan struct{} // closed when ServeConn returned
+}
+
+type VerifC33Stream struct {
+	ID        uint32
+	State     int // 1 open, 3 half-closed(remote)  (streamState values)
+	Inflow    int32
+	BodyBytes int64
+	Decl      int64
+	Buffered  int  // bytes in the request-body pipe
+	BodyDone  bool // pipe closed (EOF or error)
+}
+
+type VerifC33Snap struct {
+	Alive       bool
+	ConnInflow  int32
+	Streams     []VerifC33Stream // sorted by id
+	Queued      int              // sc.queuedControlFrames
+	ZeroLen     int              // len(sc.writeSched.zero.s)
+	StreamQ     int              // frames in stream queues
+	Writing     bool
+	NeedsFlush  bool
+	SchedEmpty  bool
+	InGoAway    bool
+	GoAwayCode  uint32
+	MaxStreamID uint32
+}
+
+var verifC33Mu sync.Mutex
+
+// VerifC33Serve runs conf.ServeConn(c) on a new goroutine with handler h.
+func VerifC33Serve(c net.Conn, h http.Handler, conf *Server) *VerifC33Conn {
+	verifC33Mu.Lock()
+	defer verifC33Mu.Unlock()
+	ch := make(chan *serverConn, 1)
+	testHookGetServerConn = func(sc *serverConn) {
+		sc.testHookCh = make(chan func(int))
+		ch <- sc
+	}
+	v := &VerifC33Conn{Done: make(chan struct{})}
+	go func() {
+		defer close(v.Done)
+		conf.ServeConn(c, &ServeConnOpts{BaseConfig: &http.Server{}, Handler: h})
+	}()
+	select {
+	case v.sc = <-ch:
+	case <-v.Done:
+	}
+	testHookGetServerConn = nil
+	return v
+}
+
+// Snap runs on the serve goroutine (between two serve-loop iterations).
+func (v *VerifC33Conn) Snap() VerifC33Snap {
+	if v.sc == nil {
+		return VerifC33Snap{}
+	}
+	sc := v.sc
+	res := make(chan VerifC33Snap, 1)
+	fn := func(int) {
+		s := VerifC33Snap{
+			Alive:       true,
+			ConnInflow:  sc.inflow.n,
+			Queued:      sc.queuedControlFrames,
+			ZeroLen:     len(sc.writeSched.zero.s),
+			Writing:     sc.writingFrame,
+			NeedsFlush:  sc.needsFrameFlush,
+			SchedEmpty:  sc.writeSched.empty(),
+			InGoAway:    sc.inGoAway,
+			GoAwayCode:  uint32(sc.goAwayCode),
+			MaxStreamID: sc.maxStreamID,
+		}
+		for _, q := range sc.writeSched.sq {
+			s.StreamQ += len(q.s)
+		}
+		for id, st := range sc.streams {
+			x := VerifC33Stream{ID: id, State: int(st.state), Inflow: st.inflow.n,
+				BodyBytes: st.bodyBytes, Decl: st.declBodyBytes}
+			if st.body != nil {
+				x.Buffered, x.BodyDone = st.body.VerifC33State()
+			} else {
+				x.BodyDone = true
+			}
+			s.Streams = append(s.Streams, x)
+		}
+		sort.Slice(s.Streams, func(i, j int) bool { return s.Streams[i].ID < s.Streams[j].ID })
+		res <- s
+	}
+	select {
+	case sc.testHookCh <- fn:
+		return <-res
+	case <-sc.doneServing:
+		return VerifC33Snap{}
+	}
+}
+
+// VerifC33Body describes a handler's request body: stream id, buffered bytes, and whether a Read
+// would return immediately (data buffered, or the pipe is closed, or there is no pipe).
+func VerifC33Body(body io.ReadCloser) (id uint32, buffered int, readable bool) {
+	b, ok := body.(*RequestBody)
+	if !ok {
+		return 0, 0, true
+	}
+	id = b.stream.id
+	if b.pipe == nil {
+		return id, 0, true
+	}
+	n, closed := b.pipe.VerifC33State()
+	return id, n, n > 0 || closed
+}
+
+// VerifC33MaxQueuedControlFrames is the limit the serve loop compares against.
+func VerifC33MaxQueuedControlFrames() int { return (&Server{}).maxQueuedControlFrames() }
